@@ -46,7 +46,7 @@ class FBuilder(Builder):
         m = self.mstmts[-1]
         view = m[2]
         parent = operands[0] if isinstance(operands[0], TInfo) else None
-        if parent is not None and not view and t.vals is parent.vals:
+        if parent is not None and t.vals is parent.vals:
             # NumPy returned the operand itself (np.squeeze with nothing to squeeze): shares memory although MyGrad records no view
             self.identity_views = getattr(self, "identity_views", [])
             self.identity_views.append(t.name)
@@ -57,6 +57,17 @@ class FBuilder(Builder):
         for n in names:
             self.dead.add(n)
         super().delete(names)
+
+    def new_epoch(self):
+        """after backward() cleared the graphs of ALL live tensors: a tensor whose creator is gone is, for views taken from now
+        on, the owner of its own family (Tensor._op drops the lingering _base of such a tensor)"""
+        for n in list(self.fam):
+            if n in self.tensors:
+                t = self.tensors[n]
+                self.fam[n] = n
+                self.bmap[n] = np.arange(t.size, dtype=np.int64).reshape(t.shape)
+        if hasattr(self, "_root_node"):
+            del self._root_node, self._root_const, self._root_shapes
 
     def members(self, root):
         return [n for n in self.order if n in self.tensors and self.fam.get(n) == root]
